@@ -92,7 +92,7 @@ class FreudBox:
     def pyvc_getattr(self, interp, name):
         if name in ("Lx", "Ly", "Lz"):
             k = "xyz".index(name[1])
-            return self.L[k] if k < self.dims else 0
+            return self.L[k] if k < self.dims else sv.to_frac(0.0)
         if name == "is2D":
             return self.dims == 2
         if name == "dimensions":
